@@ -206,6 +206,8 @@ func (u *controlUnit) shouldUseForwarding(runner *risc.InstructionRunnerPc, haza
 	}
 
 	// Can we use forwarding with an instruction pushed in the previous cycle
+	var source *risc.InstructionRunnerPc
+	var sourceRegister risc.RegisterType
 	for previousRunner := range u.pushedRunnersInPreviousCycle {
 		for _, writeRegister := range previousRunner.Runner.WriteRegisters() {
 			for _, readRegister := range runner.Runner.ReadRegisters() {
@@ -213,12 +215,27 @@ func (u *controlUnit) shouldUseForwarding(runner *risc.InstructionRunnerPc, haza
 					continue
 				}
 				if readRegister == writeRegister {
-					return true, previousRunner, readRegister
+					// Several writers of the register may have been pushed in the
+					// previous cycle: the youngest one holds the value to forward
+					if source == nil || previousRunner.SequenceID > source.SequenceID {
+						source, sourceRegister = previousRunner, readRegister
+					}
 				}
 			}
 		}
 	}
-	return false, nil, risc.Zero
+	if source == nil {
+		return false, nil, risc.Zero
+	}
+	for currentRunner := range u.pushedRunnersInCurrentCycle {
+		for _, writeRegister := range currentRunner.Runner.WriteRegisters() {
+			if writeRegister == sourceRegister {
+				// A younger writer was pushed in the current cycle
+				return false, nil, risc.Zero
+			}
+		}
+	}
+	return true, source, sourceRegister
 }
 
 func (u *controlUnit) notifyConditionalBranch() {
